@@ -12,6 +12,8 @@ structure EpSpec where
   prio    : Int
   status  : String
   opened  : Bool
+  prefail : Nat
+  stallMs : Nat
   kind    : String
   chunked : Bool
   resp    : Resp
@@ -32,14 +34,24 @@ def parseEps (sc : Json) : List EpSpec :=
     let body := unhex (jstr (jget beh "body_hex"))
     let st := jnat (jget beh "status")
     { idx := i, name := jstr (jget e "name"), prio := jint (jget e "prio"), status := jstr (jget e "status"),
-      opened := jbool (jget e "open"), kind := jstr (jget beh "kind"), chunked := jbool (jget beh "chunked"),
+      opened := jbool (jget e "open"), prefail := jnat (jget e "prefail"), stallMs := jnat (jget beh "stall_ms"), kind := jstr (jget beh "kind"), chunked := jbool (jget beh "chunked"),
       resp := { status := if st == 0 then 200 else st, headers := sortPairs (parsePairs (jget beh "headers")), body := body },
       k := jnat (jget beh "k") })
 
-def outcomeOf (eps : List EpSpec) (i : Nat) : Attempt :=
+/-- `engine`/`readTimeoutMs` matter only for the "pause" behaviour: a pause shorter than the read
+    timeout is not cut; a longer one ends the sherpa attempt after the bytes already relayed
+    ("AI backend stopped responding" — not a connection error, so no retry). -/
+def outcomeOfIn (engine : String) (readTimeoutMs : Nat) (eps : List EpSpec) (i : Nat) : Attempt :=
   match eps.find? (·.idx == i) with
   | none => .failBefore false
-  | some e => if e.opened then .skip else attemptOf e.kind e.chunked e.resp e.k
+  | some e =>
+    if e.opened || e.prefail ≥ Olla.Gen.Retry.engineBreakerThreshold then .skip
+    else if e.kind == "pause" then
+      (if readTimeoutMs == 0 || e.stallMs < readTimeoutMs then .ok e.resp
+       else if engine == "sherpa" then .failAfter e.resp e.k false else .ok e.resp)
+    else attemptOf e.kind e.chunked e.resp e.k
+
+def outcomeOf (eps : List EpSpec) (i : Nat) : Attempt := outcomeOfIn "" 0 eps i
 
 def statusOf (e : EpSpec) : String := if e.status == "" then "healthy" else e.status
 
